@@ -42,6 +42,7 @@ type Options struct {
 	GenesisBal  string
 	LogToStderr bool
 	NoRouter    bool // do not feed executed blocks to the router monitor
+	RootMon     bool // compare every block's state-store changes with its journal / state root (rootmon.go)
 }
 
 // Key is a deterministic secp256k1 account.
@@ -98,6 +99,13 @@ type Replica struct {
 	routerMon      *RouterMon
 	RouterFindings []RouterFinding
 	RouterBlocks   int
+
+	// root monitor (see rootmon.go)
+	RootFindings []RootFinding
+	RootBlocks   int
+	RootJournals int
+	RootAccounts int
+	rootPrev     map[string][]byte
 }
 
 // TakeRouterFindings returns and clears the router monitor's findings.
@@ -269,6 +277,7 @@ func (r *Replica) ExecBlockAt(h uint64, txs []pb.Transaction, ts int64, local []
 			r.RouterFindings = append(r.RouterFindings, r.routerMon.Check(ev.Block, ev.InterchainMeta)...)
 			r.RouterBlocks++
 		}
+		r.rootCheck(ev.Block)
 		for _, tx := range txs {
 			rc, err := r.L.GetReceipt(tx.GetHash())
 			if err != nil {
